@@ -1,4 +1,5 @@
 open Model
 let table : (string * (val0 -> val0)) list = [
   "chk_c12_decode", chk_c12_decode;
+  "chk_c07", chk_c07;
 ]
